@@ -313,6 +313,10 @@ def _questions():
     qs.append(('dijkstra', layout_of(g1), (2, 2)))
     qs.append(('dijkstra', layout_of(g1), (0, 0)))
     qs.append(('dijkstra', layout_of(g2), (2, 2)))
+    # a layout whose left column is cut off from the exit (unreachable cells: infinite distance, whatever ran before)
+    g4 = ((F_, W, F_), (F_, W, F_), (F_, W, E))
+    qs.append(('dijkstra', layout_of(g4), (2, 2)))
+    qs.append(('sp_reward', (g4, 0, 0, 'B', NONE), 'MOVE_FORWARD', (g4, 1, 0, 'B', NONE)))
     qs.append(('rays', (1, 1), ((0, 2), (0, 2))))
     qs.append(('rays', (0, 1), ((0, 2), (0, 2))))
     qs.append(('rays', (1, 1), ((0, 1), (0, 2))))
@@ -355,6 +359,24 @@ def ask(q):
     raise ValueError(kind)
 
 
+def bfs_table(layout, src):
+    H, W = len(layout), len(layout[0])
+    inf = float('inf')
+    d = [[inf] * W for _ in range(H)]
+    d[src[0]][src[1]] = 0.0
+    frontier = [src]
+    while frontier:
+        nxt = []
+        for y, x in frontier:
+            for dy, dx in ((-1, 0), (1, 0), (0, -1), (0, 1)):
+                y2, x2 = y + dy, x + dx
+                if 0 <= y2 < H and 0 <= x2 < W and layout[y2][x2] and d[y2][x2] == inf:
+                    d[y2][x2] = d[y][x] + 1
+                    nxt.append((y2, x2))
+        frontier = nxt
+    return tuple(tuple(r) for r in d)
+
+
 def prologue():
     """11 distinct distance-table keys (overflows the 10-entry table) + a few ray fans"""
     base = [[True] * 4 for _ in range(3)]
@@ -387,6 +409,10 @@ def judge_history(seq, with_prologue):
             raw = RW.dijkstra.__wrapped__(q[1], q[2])
             if tuple(map(tuple, np.asarray(raw).tolist())) != cold[qi][1]:
                 return 'cached shortest-path table differs from the uncached computation'
+            want = bfs_table(q[1], q[2])
+            if cold[qi][1] != want:
+                return (f'shortest-path table for layout {q[1]} from {q[2]} differs from breadth-first distances (unreachable and '
+                        f'blocked cells are at infinite distance): {cold[qi][1]}')
         if q[0] == 'rays':
             raw = RT.compute_rays_fancy(Position(*q[1]), Area(*q[2]))
             if tuple(tuple(p.yx for p in ray) for ray in raw) != cold[qi][1]:
